@@ -141,13 +141,21 @@ def part_index(ctx, shard):
             a = unyt_quantity(data[()], "m", name="nm")
         else:
             a = unyt_array(data.copy(), "m", name="nm")
+        _index_body(ctx, a, shape, dtype, "")
+        if shape != () and data.size == 1:
+            # a one-element quantity that kept its dimensions (the constructor accepts any single-element array)
+            _index_body(ctx, unyt_quantity(data.copy(), "m", name="nm"), shape, dtype, "|parent=quantity")
+
+
+def _index_body(ctx, a, shape, dtype, ptag):
+    if True:
         d = np.asarray(a.d)
         au = a.units
         menu = index_menu(shape)
         for lab, idx in menu:
             ctx.count("evaluations")
             case = {"part": "index", "shape": list(shape), "dtype": dtype, "idx": lab}
-            base = f"C16|index|shape={shape}|idx={lab}".replace(" ", "")
+            base = f"C16|index|shape={shape}|idx={lab}".replace(" ", "") + ptag
             ru, rb = try_index(a, idx), try_index(d, idx)
             ctx.outcome(("index", shape, lab, ru[0], rb[0], type(ru[1]).__name__))
             if rb[0] == "raise":
@@ -720,8 +728,13 @@ def _run_calls(ctx, name, unit, shapes, calls):
             with warnings.catch_warnings():
                 warnings.simplefilter("ignore")
                 r = f()
-        except Exception:  # noqa: BLE001
+        except Exception as e:  # noqa: BLE001
             ctx.count("ufunc_call_refused")
+            if isinstance(e, RuntimeError) and "must be scalars" in str(e) and name != "misc":
+                # not a refusal of the operands: the library tried to wrap a multi-element result as a quantity
+                ctx.violation(
+                    f"C16|ufunc|name={name}|form={form}|shapes={shapes}|mode=multi-element-quantity-attempted".replace(" ", ""),
+                    {"part": "ufunc", "name": name, "unit": unit, "shapes": [list(s) for s in shapes], "form": form}, "unyt_array", str(e)[:80])
             continue
         rs = r if isinstance(r, tuple) else (r,)
         for k, x in enumerate(rs):
@@ -741,6 +754,64 @@ def _run_calls(ctx, name, unit, shapes, calls):
                 )
 
 
+def part_int_views(ctx, shard):
+    """in-place operators and out= on a VIEW of integer data: whatever the call does to the view, the parent read through
+    its own dtype and unit still holds the untouched elements unchanged and the touched ones updated (or the call refuses
+    and nothing changed) - the view stays attached to the parent's data, it does not reinterpret it"""
+    import operator as _op
+
+    world.reset_world()
+    for shape, dtype in shard:
+        n = int(np.prod(shape))
+        data = (np.arange(n) + 2).reshape(shape).astype(dtype)
+        subs = [("first-two", lambda v: v.reshape(-1)[:2] if v.flags.c_contiguous else v[:2]), ("strided", lambda v: v.reshape(-1)[::2]), ("last-row", lambda v: v[-1:]), ("whole-view", lambda v: v[...])]
+        ops = [
+            ("iadd-same-unit", lambda v: _op.iadd(v, unyt_quantity(1, "m")), lambda x: x + 1.0),
+            ("iadd-self", lambda v: _op.iadd(v, v), lambda x: x + x),
+            ("iadd-other-unit", lambda v: _op.iadd(v, unyt_quantity(1, "km")), lambda x: x + 1000.0),
+            ("imul-bare", lambda v: _op.imul(v, 2), lambda x: x * 2.0),
+            ("ufunc-out-self", lambda v: np.add(v, v, out=v), lambda x: x + x),
+            ("negative-out", lambda v: np.negative(v, out=v), lambda x: -x),
+            ("refused-other-dimension", lambda v: _op.iadd(v, unyt_quantity(1, "s")), None),
+        ]
+        for (sname, sub), (oname, op, ref) in itertools.product(subs, ops):
+            if dtype.startswith("uint") and oname == "negative-out":
+                continue
+            ctx.count("evaluations")
+            raw = data.copy()
+            par = unyt_array(raw, "m")
+            view = sub(par)
+            if not np.shares_memory(view, raw):
+                continue
+            touched = np.zeros(raw.shape, dtype=bool)
+            sub(touched)[...] = True
+            before = raw.astype(float)
+            case = {"part": "int-views", "shape": list(shape), "dtype": dtype, "sub": sname, "call": oname}
+            base = f"C16|int-view|op={oname}|sub={sname}"
+            try:
+                op(view)
+                st = "ok"
+            except Exception:  # noqa: BLE001
+                st = "raise"
+            ctx.outcome(("int-view", oname, sname, dtype, st))
+            ctx.decided(("int-view", shape, dtype, sname, oname))
+            # the parent, and the plain array the parent was built over, read through their own dtypes
+            for who, arr, scale in (("parent", np.asarray(par.d), float(par.units.base_value)), ("source-array", raw, 1.0)):
+                now = arr.astype(float) * scale
+                want = before.copy()
+                if st == "ok" and ref is not None:
+                    want[touched] = ref(before[touched])
+                elif st == "ok":
+                    ctx.violation(base + "|mode=accepted-other-dimension", case, "refusal", "value")
+                    break
+                if who == "source-array" and sname == "whole-view" and par.dtype != raw.dtype:
+                    continue  # the whole buffer was handed over and consistently retyped: the bare source is no longer a reader
+                if now.shape != want.shape or not np.allclose(now, want, rtol=1e-6, atol=0):
+                    mode = "data-reinterpreted-after-refusal" if st == "raise" else "data-reinterpreted"
+                    ctx.violation(base + f"|who={who}|mode={mode}", case, want.reshape(-1)[:6].tolist(), now.reshape(-1)[:6].tolist())
+                    break
+
+
 def run(ctx):
     sd = [(s, d) for s in SHAPES for d in DTYPES]
     harness.pmap(ctx, part_index, [[x] for x in sd])
@@ -755,6 +826,7 @@ def run(ctx):
     harness.pmap(ctx, part_results_gufunc, [[n] for n in ("matmul", "vecdot", "matvec", "vecmat")])
     harness.pmap(ctx, part_results_misc, [["m"], ["dimensionless"], ["degC"], ["km/s"]])
     harness.pmap(ctx, part_own_unit, [[x] for x in OWN_UNIT_CALLS])
+    harness.pmap(ctx, part_int_views, [[(sh, dt)] for sh in ((6,), (2, 3)) for dt in ("int64", "int32", "int16", "uint8", "float64")])
     return {
         "coverage": {
             "rule": "index: shape x dtype x index form (x second index form) executed on the unyt array and on its bare data; "
@@ -786,6 +858,8 @@ def replay(case):
     if p in ("index", "access", "construct"):
         f = {"index": part_index, "access": part_access, "construct": part_construct}[p]
         f(ctx, [(tuple(case["shape"]), case["dtype"])])
+    elif p == "int-views":
+        part_int_views(ctx, [(tuple(case["shape"]), case["dtype"])])
     elif p == "result":
         i = [k for k, t in enumerate(R.TEMPLATES) if t.func == case["func"] and t.tid == case["tid"]]
         part_results_catalog(ctx, i)
